@@ -137,10 +137,42 @@ def features(block):
     return sorted(set(type(c).__name__ for c in block.constraints))
 
 
-def compile_correspondence(ctx, res, programs, full=True, full_cap=4000):
+def extra_blocks():
+    """Blocks built directly with classes the program IR has no syntax for
+    (ExactlyKMultipleInARow); (name, description-dict, block)."""
+    from sweetpea import Factor, CrossBlock, MinimumTrials
+    from sweetpea._internal.constraint import ExactlyKMultipleInARow
+    from sweetpea._internal.cross_block import Repeat
+    out = []
+    for k, t, crossed in [(1, 3, False), (2, 4, False), (2, 5, False), (3, 6, False), (2, 6, True), (3, 2, False)]:
+        desc = {"direct": "ExactlyKMultipleInARow", "k": k, "trials": t, "crossed": crossed}
+        try:
+            with ir.quiet():
+                f = Factor("f", ["a", "b"])
+                g = Factor("g", ["x", "y", "z"])
+                if crossed:
+                    blk = Repeat(CrossBlock([f, g], [g], [ExactlyKMultipleInARow(k, (f, "a"))]), [MinimumTrials(t)])
+                else:
+                    blk = CrossBlock([f], [], [ExactlyKMultipleInARow(k, (f, "a")), MinimumTrials(t)])
+            out.append(("direct:ekm-k%d-t%d%s" % (k, t, "-rep" if crossed else ""), desc, blk))
+        except Exception:  # noqa
+            pass
+    return out
+
+
+def compile_correspondence(ctx, res, programs, full=True, full_cap=4000, blocks=()):
     """Run model and real code on every program.  `programs` is a list of
-    program dicts (harness/ir.py format) or (name, program) pairs."""
+    program dicts (harness/ir.py format) or (name, program) pairs; `blocks` a
+    list of (name, description, real block) built directly."""
     cases = []
+    for name, desc, block in blocks:
+        try:
+            with ir.quiet():
+                w = flat.flat_wire(block)
+        except Exception as e:  # noqa
+            res.extra.setdefault("flat_failures", []).append(type(e).__name__)
+            continue
+        cases.append((name, desc, block, w))
     for p in programs:
         name, prog = p if isinstance(p, tuple) else (None, p)
         block, why = build_real(prog)
